@@ -49,9 +49,12 @@ C04Lens == {"0", "1", "8191", "8192", "8193", "thr-1", "thr", "thr+1"}
 C04Thrs == {"0", "1", "len-1", "len", "len+1", "default", "max"}
 C04TE == {"absent", "chunked", "identity", "chunked;q=0, identity"}
 C04Cases ==
+    \* route: the response is built by Response::new, or ("tmpl") from a template with a body of another length
+    \* whose data is then replaced by with_data (declared or undeclared), status and threshold set afterwards
     [status : Statuses, len : C04Lens, declared : BOOLEAN, thr : C04Thrs, ver : {"1.0", "1.1"}, head : BOOLEAN,
-     te : C04TE, piece : {1, 100, 0}]
-C04Pick(c) == Tier # "quick" \/ (c.piece = 0 \/ (c.len \in {"8193", "thr"} /\ c.te = "absent"))
+     te : C04TE, piece : {1, 100, 0}, route : {"new", "tmpl"}]
+C04Pick(c) == /\ (Tier # "quick" \/ (c.piece = 0 \/ (c.len \in {"8193", "thr"} /\ c.te = "absent")))
+              /\ (c.route = "tmpl" => c.piece = 0)
 GenC04(f) == ndJsonSerialize(f, SetToSeq({c \in C04Cases : C04Pick(c)}))
 
 \* ---- C19 product: header lists
@@ -94,7 +97,8 @@ CheckObs ==
     LET Obs == ObsOf(ObsFile) IN
     /\ \A i \in 1..Len(Obs) :
          LET o == Obs[i] IN
-           CASE o.prop = "C05" -> Report(o, i, "C05", C05Guards(o))
+           CASE "panicked" \in DOMAIN o -> Report(o, i, o.prop, << <<FALSE, "PanickedWhilePrinting">> >>)
+             [] o.prop = "C05" -> Report(o, i, "C05", C05Guards(o))
              [] o.prop = "C04" -> Report(o, i, "C04", RM!Guards(o))
              [] o.prop = "C19" -> Report(o, i, "C19", HP!Guards(o))
     /\ PrintT(<<"DONE", Len(Obs)>>)
